@@ -33,6 +33,7 @@ func c09(r *core.Run) {
 	r.Assumptions = []string{"SetOwnedResources is called before Serve (documented)"}
 
 	r.Rule("S1", "one source: the ownership lists are written only by SetOwnedResources and the defaulting function; subscribe and ResetAll call the defaulting function before reading them; ResetAll passes exactly the two lists to reset, which publishes them as resources/access", 6)
+	r.Rule("S9", "defaults are fixed only while serving: the one-shot defaulting of the ownership lists is called only from serve's start-up sequence or on a path dominated by the state==started test (default ownership is meant to reflect the handler kinds registered when the service starts)", 2)
 	r.Rule("S2", "type x list: resource patterns are combined with {get,call,auth}, access patterns with access; the method wildcard is appended only where the last byte is not '>'", 3)
 	r.Rule("S3", "subscription shape: every subscription passes the in-channel; the queue variant is used iff the queue group is non-empty with that group; each subscription loop skips patterns covered by another pattern", 6)
 	r.Rule("S4", "errors: a failed subscription returns its error from subscribe, and serve tests subscribe's result", 3)
@@ -94,6 +95,39 @@ func c09(r *core.Run) {
 		r.Unres("S1", "subscribe/defaulting/reset", "cannot resolve the subscribing method, the defaulting function or reset")
 		return
 	}
+	// ---- S9 --------------------------------------------------------------
+	// the defaulting is one-shot (it only replaces nil lists): run on a service that is not serving
+	// it freezes the defaults for the handler kinds registered so far
+	if sa := resolveSvc(r, "S9"); sa.ok {
+		ops, _ := stateOps(root, sa)
+		started := int64(-1)
+		for _, op := range ops {
+			if op.Op == "store" && op.Fn == sa.Serve {
+				started = op.New
+			}
+		}
+		n := 0
+		for _, c := range p.CallersOf(deflt) {
+			f := c.Parent()
+			n++
+			switch {
+			case p.Within(f, sa.Serve) || p.Within(f, sub):
+				r.OK("S9", core.FuncName(f), "defaulting-only-while-serving", p.InstrPos(c), "called from the start-up sequence of serve")
+			default:
+				dom := false
+				for _, ed := range ctxEdges(p, c, core.Outermost(f), 0) {
+					if started >= 0 && startedEdge(ed, started) {
+						dom = true
+					}
+				}
+				r.Check(dom, "S9", core.FuncName(f), "defaulting-only-while-serving", p.InstrPos(c), "the call is dominated by the state==started edge", "the one-shot ownership defaulting can run on a service that is not started: called before the handlers are registered it freezes the default lists, and handler kinds registered afterwards get no subscription and are missing from system.reset")
+			}
+		}
+		if n == 0 {
+			r.Bad("S9", core.FuncName(deflt), "defaulting-only-while-serving", p.Pos(deflt.Pos()), "the defaulting function is never called")
+		}
+	}
+
 	// ---- S1 --------------------------------------------------------------
 	writers, readers := map[string]bool{}, map[string]bool{}
 	for _, ac := range core.FieldAccesses(root, func(f core.Field) bool { return f == resF || f == accF }) {
@@ -180,8 +214,49 @@ func c09(r *core.Run) {
 		f2, ok2 := core.LoadedField(c.Common().Args[2])
 		r.Check(ok1 && ok2 && f1 == resF && f2 == accF, "S1", core.FuncName(resetAll), "reset(resources,access)", p.InstrPos(c), "ResetAll announces the owned resource and access lists, in that order", "ResetAll announces "+valDesc(c.Common().Args[1])+" / "+valDesc(c.Common().Args[2]))
 	}
-	// reset publishes params as Resources / Access
+	// reset publishes params as Resources / Access (the callee of ResetAll may be a forwarder - the
+	// exported Reset - that hands both lists on unchanged)
 	{
+		i1, i2 := 1, 2
+		for depth := 0; depth < 3; depth++ {
+			builds := false
+			for _, b := range resetFn.Blocks {
+				for _, in := range b.Instrs {
+					if st, ok := in.(*ssa.Store); ok {
+						if f, ok := core.FieldOf(st.Addr); ok && f.Struct == "resetEvent" {
+							builds = true
+						}
+					}
+				}
+			}
+			if builds || i1 >= len(resetFn.Params) || i2 >= len(resetFn.Params) {
+				break
+			}
+			var next *ssa.Function
+			n1, n2 := -1, -1
+			for _, c := range core.Calls(resetFn) {
+				cal := c.Common().StaticCallee()
+				if cal == nil || len(cal.Blocks) == 0 || cal.Pkg != resetFn.Pkg {
+					continue
+				}
+				a1, a2 := -1, -1
+				for j, a := range c.Common().Args {
+					if a == ssa.Value(resetFn.Params[i1]) {
+						a1 = j
+					}
+					if a == ssa.Value(resetFn.Params[i2]) {
+						a2 = j
+					}
+				}
+				if a1 >= 0 && a2 >= 0 {
+					next, n1, n2 = cal, a1, a2
+				}
+			}
+			if next == nil {
+				break
+			}
+			resetFn, i1, i2 = next, n1, n2
+		}
 		got := map[string]string{}
 		for _, b := range resetFn.Blocks {
 			for _, in := range b.Instrs {
@@ -192,7 +267,7 @@ func c09(r *core.Run) {
 				}
 			}
 		}
-		r.Check(got["Resources"] == resetFn.Params[1].Name() && got["Access"] == resetFn.Params[2].Name(), "S1", core.FuncName(resetFn), "payload{resources<-arg1,access<-arg2}", p.Pos(resetFn.Pos()), "the reset payload carries the two lists it was given", fmt.Sprintf("reset payload is built from %v", got))
+		r.Check(i1 < len(resetFn.Params) && i2 < len(resetFn.Params) && got["Resources"] == resetFn.Params[i1].Name() && got["Access"] == resetFn.Params[i2].Name(), "S1", core.FuncName(resetFn), "payload{resources<-arg1,access<-arg2}", p.Pos(resetFn.Pos()), "the reset payload carries the two lists it was given", fmt.Sprintf("reset payload is built from %v", got))
 	}
 
 	// ---- S2 --------------------------------------------------------------
